@@ -1072,6 +1072,62 @@ func c20Spaces(c *fw.Ctx) {
 			}
 		})
 
+	// RDATA that only the wire can carry (the packer never writes it, the unpacker keeps it): APL items with address
+	// octets / bits behind the prefix length. Records from the wire are duplicates exactly when the octets are equal.
+	c.Space("wire-only", "APL records unpacked from RDATA with one item: family {1,2} × prefix {0,8,12,32} × negation × address part {the prefix bits only, one more set bit behind the prefix in the same octet, one / two more non-zero octets}: all ordered pairs, IsDuplicate exactly when the RDATA octets are equal; non-trivial: all", true,
+		func(emit func(func(*fw.R))) {
+			type item struct {
+				desc  string
+				rdata []byte
+			}
+			var items []item
+			for _, fam := range []byte{1, 2} {
+				for _, pfx := range []byte{0, 8, 12, 32} {
+					for _, neg := range []byte{0, 0x80} {
+						base := []byte{10, 0x10, 0, 0}[:(int(pfx)+7)/8]
+						parts := [][]byte{base}
+						if pfx == 12 {
+							parts = append(parts, []byte{10, 0x11}) // a bit behind the prefix, same octet
+						}
+						parts = append(parts, append(append([]byte(nil), base...), 7), append(append([]byte(nil), base...), 7, 9))
+						for _, afd := range parts {
+							rd := append([]byte{0, fam, pfx, neg | byte(len(afd))}, afd...)
+							items = append(items, item{fmt.Sprintf("family %d prefix %d negation %v address part %x", fam, pfx, neg != 0, afd), rd})
+						}
+					}
+				}
+			}
+			for i := range items {
+				i := i
+				emit(func(r *fw.R) {
+					r.Nontrivial()
+					mk := func(it item) dns.RR {
+						w := append([]byte{1, 'a', 0, 0, 42, 0, 1, 0, 0, 0, 5, 0, byte(len(it.rdata))}, it.rdata...)
+						rr, _, err := dns.UnpackRR(w, 0)
+						if err != nil {
+							return nil
+						}
+						return rr
+					}
+					a := mk(items[i])
+					if a == nil {
+						r.Count("not accepted by Unpack", 1)
+						return
+					}
+					for j := range items {
+						b := mk(items[j])
+						if b == nil {
+							continue
+						}
+						want := bytes.Equal(items[i].rdata, items[j].rdata)
+						if got := dns.IsDuplicate(a, b); got != want {
+							r.Fail("wire/APL/bits-behind-prefix", "IsDuplicate = %v for APL records from the wire with RDATA %x (%s) and %x (%s)", got, items[i].rdata, items[i].desc, items[j].rdata, items[j].desc)
+						}
+					}
+				})
+			}
+		})
+
 	c.Space("xtype", "all ordered pairs of base records of all types (same owner, class, TTL), built and from the wire: duplicates exactly when the types are equal; one case per first type, all are non-trivial", true,
 		func(emit func(func(*fw.R))) {
 			for i := range all {
